@@ -424,12 +424,22 @@ CHECKS.update({
              "states) equals the canonical order's after every Step.  DE2 under maps executing every TLC schedule inline, "
              "through forced real thread pools with overlapping execution, shuffles, free threads and forked processes, compared "
              "with the serial run after every Step.  Lattice/Buckshot ensembles with Nelder-Mead/Powell members under the same "
-             "schedules, Solve vs repeated Step vs Solve(step=True): result, counters and per-member results identical.",
+             "schedules (explicit bin layouts and an integer number of bins, whose layout is drawn before the members run), "
+             "Solve vs repeated Step vs Solve(step=True): result, counters and per-member results identical.  Wrappers "
+             "(solver/Wrappers.tla): per one-line wrapper (fmin, fmin_powell, diffev, diffev2, lattice, buckshot, sparsity) the "
+             "class-API script an argument record denotes (which Set* call, value and documented default, termination rule, "
+             "Solve keywords, return shape, resolved limits, warnflag); TLC checks keyword-order independence, locality and "
+             "default resolution and emits every record with <=2 (quick 1.8k) / <=3 (thorough 25k) deviating keywords; the real "
+             "wrapper and the denoted script run under the same seed and are compared bit for bit (evaluated points in order, "
+             "monitor records, callbacks, returned fields, generator states).",
         note="trusted: TLC, the projection of private attributes onto the model's record, EventMap (verified to have executed the "
              "requested event sequence); premises: seed + initial-points call at a fixed place, drawing calls (tight=True) only "
              "when that unit is first or last, calls write distinct slots, monitors handed over empty, new=True limits not "
              "combined with a new=True monitor on a live solver (relative limits are documented to depend on the counters at "
-             "call time: TLC refutes confluence when this premise is dropped); ensemble members draw no random numbers; "
+             "call time: TLC refutes confluence when this premise is dropped); ensemble members draw no random numbers; wrappers: "
+             "explicit documented-default values (id=None ...), fmin(xtol=0) and bounds+cliprange=False+step are not enumerated, a "
+             "step=True ensemble call is judged by (xopt, fopt, multiset of evaluated points) against both readings of the "
+             "ignored keyword (observations O1-O6 in the evidence); "
              "pathos/multiprocess maps are not available in the sandbox (a fork-per-item map stands in for DE2); "
              "SparsitySolver not run (fillpts runs a random DE)",
         design_ref="DESIGN.md section 4/C07"),
